@@ -637,345 +637,356 @@ def traversal_shape(path, fn, inner_name, memo_names):
     return 'Memo' if (guarded and added) else 'PerPath'
 
 
-def gen_misc(repo, report):
-    out = ['(* GENERATED by tools/translate.py (miscellaneous kernels). Do not edit. *)',
-           'From Connectome Require Import Values.', 'From Coq Require Import ZArith.', '',
-           'Inductive trav_shape := Memo | PerPath.', '']
+MISC_FILES = ('EvictGen', 'GraphGen', 'TravGen', 'MemGen', 'ShardGen', 'JoinGen', 'LoopGen', 'DiskGen', 'PickleGen')
+
+def gen_misc(repo, report, only):
+    """one of the small generated files (MISC_FILES); each is produced on its own, so that a kernel that lost its shape fails its own file only"""
+    out = [f'(* GENERATED by tools/translate.py ({only}). Do not edit. *)', 'From Connectome Require Import Values.', 'From Coq Require Import ZArith.', '']
     C = os.path.join(repo, 'connectome')
 
     def note(kernel, rel, node, src):
         report['kernels'].append({'kernel': kernel, 'file': rel, 'line': node.lineno, 'sha256_16': sha(src, node)})
 
     # --- EvictionCache
-    path = os.path.join(C, 'engine/utils.py')
-    src, tree = parse(path)
-    ec = find_class(tree, 'EvictionCache')
-    ev = find_func(ec.body, 'evict')
-    note('EvictionCache.evict', 'engine/utils.py', ev, src)
-    want = ('count=self.counts[key]\nassertcount>0,count\nifcount==1:\nself.counts.pop(key)\nself.cache.pop(key,None)\n'
-            'else:\nself.counts[key]=count-1')
-    if norm(ev.body) != want:
-        fail(path, ev, 'EvictionCache.evict changed')
-    st = find_func(ec.body, '__setitem__')
-    note('EvictionCache.__setitem__', 'engine/utils.py', st, src)
-    if norm(st.body) != 'assertkeyinself.counts\nself.cache[key]=value':
-        fail(path, st, 'EvictionCache.__setitem__ changed')
-    ct = find_func(ec.body, '__contains__')
-    if norm(ct.body) != 'returnkeyinself.cache':
-        fail(path, ct, 'EvictionCache.__contains__ changed')
-    gi = find_func(ec.body, '__getitem__')
-    if norm(gi.body) != 'returnself.cache[key]':
-        fail(path, gi, 'EvictionCache.__getitem__ changed')
-    out.append('(* engine/utils.py: EvictionCache.evict = "decrement; at 1 drop counter and value"; __setitem__ asserts the key is counted *)')
-    out.append('Definition evict_rule : string := "pop-at-one-else-decrement".')
-    out.append('Definition setitem_asserts_counted : bool := true.\n')
+    if only == 'EvictGen':
+        path = os.path.join(C, 'engine/utils.py')
+        src, tree = parse(path)
+        ec = find_class(tree, 'EvictionCache')
+        ev = find_func(ec.body, 'evict')
+        note('EvictionCache.evict', 'engine/utils.py', ev, src)
+        want = ('count=self.counts[key]\nassertcount>0,count\nifcount==1:\nself.counts.pop(key)\nself.cache.pop(key,None)\n'
+                'else:\nself.counts[key]=count-1')
+        if norm(ev.body) != want:
+            fail(path, ev, 'EvictionCache.evict changed')
+        st = find_func(ec.body, '__setitem__')
+        note('EvictionCache.__setitem__', 'engine/utils.py', st, src)
+        if norm(st.body) != 'assertkeyinself.counts\nself.cache[key]=value':
+            fail(path, st, 'EvictionCache.__setitem__ changed')
+        ct = find_func(ec.body, '__contains__')
+        if norm(ct.body) != 'returnkeyinself.cache':
+            fail(path, ct, 'EvictionCache.__contains__ changed')
+        gi = find_func(ec.body, '__getitem__')
+        if norm(gi.body) != 'returnself.cache[key]':
+            fail(path, gi, 'EvictionCache.__getitem__ changed')
+        out.append('(* engine/utils.py: EvictionCache.evict = "decrement; at 1 drop counter and value"; __setitem__ asserts the key is counted *)')
+        out.append('Definition evict_rule : string := "pop-at-one-else-decrement".')
+        out.append('Definition setitem_asserts_counted : bool := true.\n')
 
     # --- graph.py
-    path = os.path.join(C, 'engine/graph.py')
-    src, tree = parse(path)
-    g = find_class(tree, 'Graph')
-    init = find_func(g.body, '__init__')
-    note('Graph.__init__', 'engine/graph.py', init, src)
-    mult = None
-    for s in ast.walk(init):
-        if isinstance(s, ast.Call) and ast.unparse(s.func) == 'count_entries':
-            for k in s.keywords:
-                if k.arg == 'multiplier' and isinstance(k.value, ast.Constant):
-                    mult = k.value.value
-    if not isinstance(mult, int):
-        fail(path, init, 'count_entries multiplier literal')
-    n = norm(init.body)
-    if 'inputs=sorted([xforxininputsifcounts.get(x,0)],key=lambdax:x.name)' not in n:
-        fail(path, init, 'signature rule changed')
-    if 'validate_graph(inputs,output)' not in n:
-        fail(path, init, 'validate_graph call missing')
-    out.append(f'Definition graph_multiplier : nat := {mult}.')
-    out.append('Definition signature_rule : string := "used inputs sorted by name".')
-    pc = find_func(g.body, '_prepare_cache')
-    note('Graph._prepare_cache', 'engine/graph.py', pc, src)
-    n = norm(pc.body)
-    if n.count('EvictionCache(self.counts.copy(),') != 2:
-        fail(path, pc, '_prepare_cache must build two EvictionCaches over copies of the counts')
-    out.append('Definition fresh_counts_per_call : bool := true.')
-    for fname, inner, memos in (('validate_graph', 'visitor', ['visited']), ('count_entries', 'visitor', ['visited']),
-                                ('hash_graph', 'visitor', ['hashes'])):
-        fn = find_func(tree.body, fname)
-        note(fname, 'engine/graph.py', fn, src)
-        out.append(f'Definition trav_{fname} : trav_shape := {traversal_shape(path, fn, inner, memos)}.')
-    # count_entries: what is accumulated.  Either the pinned per-path `entry_counts[node] += multiplier` or the
-    # topological accumulation `entry_counts[n] += entry_counts[node]` seeded with `entry_counts[output] = multiplier`
-    ce = find_func(tree.body, 'count_entries')
-    n = norm(ce.body)
-    if 'entry_counts[node]+=multiplier' in n and 'visited' not in n:
-        rule = 'per-path'
-    elif ('entry_counts[output]=multiplier' in n and 'fornodeinreversed(order):' in n
-          and 'entry_counts[n]+=entry_counts[node]' in n and 'order.append(node)' in n):
-        rule = 'path-count-dp'
-    else:
-        fail(path, ce, 'count_entries accumulation changed')
-    out.append(f'Definition count_rule : string := {coq_str(rule)}.')
-    # the placeholder that stands for the graph input in a static hash: a fresh object, equal to no constant
-    ph = None
-    for nd in tree.body:
-        if isinstance(nd, ast.Assign) and len(nd.targets) == 1 and ast.unparse(nd.targets[0]) == '_PLACEHOLDER':
-            ph = ast.unparse(nd.value).replace(' ', '')
-            note('_PLACEHOLDER', 'engine/graph.py', nd, src)
-    if ph != 'LeafHash(object())':
-        fail(path, tree, f'_PLACEHOLDER must be LeafHash(object()), found {ph}')
-    hg = find_func(tree.body, 'hash_graph')
-    if 'hashes=dict.fromkeys(inputs,_PLACEHOLDER)' not in norm(hg.body) or 'node.edge.hash_graph(list(map(visitor,node.parents)))' not in norm(hg.body):
-        fail(path, hg, 'hash_graph body changed')
-    out.append('Definition placeholder_is_fresh_object : bool := true.\n')
+    if only == 'GraphGen':
+        path = os.path.join(C, 'engine/graph.py')
+        src, tree = parse(path)
+        g = find_class(tree, 'Graph')
+        init = find_func(g.body, '__init__')
+        note('Graph.__init__', 'engine/graph.py', init, src)
+        mult = None
+        for s in ast.walk(init):
+            if isinstance(s, ast.Call) and ast.unparse(s.func) == 'count_entries':
+                for k in s.keywords:
+                    if k.arg == 'multiplier' and isinstance(k.value, ast.Constant):
+                        mult = k.value.value
+        if not isinstance(mult, int):
+            fail(path, init, 'count_entries multiplier literal')
+        n = norm(init.body)
+        if 'inputs=sorted([xforxininputsifcounts.get(x,0)],key=lambdax:x.name)' not in n:
+            fail(path, init, 'signature rule changed')
+        if 'validate_graph(inputs,output)' not in n:
+            fail(path, init, 'validate_graph call missing')
+        out.append(f'Definition graph_multiplier : nat := {mult}.')
+        out.append('Definition signature_rule : string := "used inputs sorted by name".')
+        pc = find_func(g.body, '_prepare_cache')
+        note('Graph._prepare_cache', 'engine/graph.py', pc, src)
+        n = norm(pc.body)
+        if n.count('EvictionCache(self.counts.copy(),') != 2:
+            fail(path, pc, '_prepare_cache must build two EvictionCaches over copies of the counts')
+        out.append('Definition fresh_counts_per_call : bool := true.')
+        for fname, inner, memos in (('validate_graph', 'visitor', ['visited']), ('count_entries', 'visitor', ['visited']),
+                                    ('hash_graph', 'visitor', ['hashes'])):
+            fn = find_func(tree.body, fname)
+            note(fname, 'engine/graph.py', fn, src)
+            out.append(f'Definition trav_{fname} : trav_shape := {traversal_shape(path, fn, inner, memos)}.')
+        # count_entries: what is accumulated.  Either the pinned per-path `entry_counts[node] += multiplier` or the
+        # topological accumulation `entry_counts[n] += entry_counts[node]` seeded with `entry_counts[output] = multiplier`
+        ce = find_func(tree.body, 'count_entries')
+        n = norm(ce.body)
+        if 'entry_counts[node]+=multiplier' in n and 'visited' not in n:
+            rule = 'per-path'
+        elif ('entry_counts[output]=multiplier' in n and 'fornodeinreversed(order):' in n
+              and 'entry_counts[n]+=entry_counts[node]' in n and 'order.append(node)' in n):
+            rule = 'path-count-dp'
+        else:
+            fail(path, ce, 'count_entries accumulation changed')
+        out.append(f'Definition count_rule : string := {coq_str(rule)}.')
+        # the placeholder that stands for the graph input in a static hash: a fresh object, equal to no constant
+        ph = None
+        for nd in tree.body:
+            if isinstance(nd, ast.Assign) and len(nd.targets) == 1 and ast.unparse(nd.targets[0]) == '_PLACEHOLDER':
+                ph = ast.unparse(nd.value).replace(' ', '')
+                note('_PLACEHOLDER', 'engine/graph.py', nd, src)
+        if ph != 'LeafHash(object())':
+            fail(path, tree, f'_PLACEHOLDER must be LeafHash(object()), found {ph}')
+        hg = find_func(tree.body, 'hash_graph')
+        if 'hashes=dict.fromkeys(inputs,_PLACEHOLDER)' not in norm(hg.body) or 'node.edge.hash_graph(list(map(visitor,node.parents)))' not in norm(hg.body):
+            fail(path, hg, 'hash_graph body changed')
+        out.append('Definition placeholder_is_fresh_object : bool := true.\n')
 
     # --- compiler.find_dependencies, containers.detect_cycles, cache._detect_impure, TreeNode.to_edges
-    path = os.path.join(C, 'engine/compiler.py')
-    src, tree = parse(path)
-    fn = find_func(tree.body, 'find_dependencies')
-    note('find_dependencies', 'engine/compiler.py', fn, src)
-    out.append(f'Definition trav_find_dependencies : trav_shape := {traversal_shape(path, fn, "visit", ["inputs"])}.')
-    path = os.path.join(C, 'containers/base.py')
-    src, tree = parse(path)
-    fn = find_func(tree.body, 'detect_cycles')
-    note('detect_cycles', 'containers/base.py', fn, src)
-    out.append(f'Definition trav_detect_cycles : trav_shape := {traversal_shape(path, fn, "visit", ["visited"])}.')
-    path = os.path.join(C, 'layers/cache.py')
-    src, tree = parse(path)
-    cl = find_class(tree, 'CacheLayer')
-    fn = find_func(cl.body, '_detect_impure')
-    note('CacheLayer._detect_impure', 'layers/cache.py', fn, src)
-    out.append(f'Definition trav_detect_impure : trav_shape := {traversal_shape(path, fn, None, ["visited"])}.')
-    n = norm(fn.body)
-    want = ("ifvisitedisNone:\nvisited=set()\nifnode.is_leafornodeinvisited:\nreturn\nvisited.add(node)\n"
-            "ifisinstance(node.edge,ImpureEdge):\nraiseValueError(f'Youaretryingtocachethefield\"{name}\",whichhasan`impure`dependency-\"{node.name}\"')\n"
-            "forparentinnode.parents:\nCacheToStorage._detect_impure(parent,name,visited)")
-    if n != want:
-        fail(path, fn, '_detect_impure changed (expected: stop at leaves and visited nodes, raise on ImpureEdge, visit every parent)')
-    out.append('Definition detect_impure_rule : string := "raise on ImpureEdge; visit every parent".')
-    path = os.path.join(C, 'engine/base.py')
-    src, tree = parse(path)
-    tn = find_class(tree, 'TreeNode')
-    fn = find_func(tn.body, 'to_edges')
-    note('TreeNode.to_edges', 'engine/base.py', fn, src)
-    out.append(f'Definition trav_to_edges : trav_shape := {traversal_shape(path, fn, "visit", ["visited"])}.\n')
+    if only == 'TravGen':
+        path = os.path.join(C, 'engine/compiler.py')
+        src, tree = parse(path)
+        fn = find_func(tree.body, 'find_dependencies')
+        note('find_dependencies', 'engine/compiler.py', fn, src)
+        out.append(f'Definition trav_find_dependencies : trav_shape := {traversal_shape(path, fn, "visit", ["inputs"])}.')
+        path = os.path.join(C, 'containers/base.py')
+        src, tree = parse(path)
+        fn = find_func(tree.body, 'detect_cycles')
+        note('detect_cycles', 'containers/base.py', fn, src)
+        out.append(f'Definition trav_detect_cycles : trav_shape := {traversal_shape(path, fn, "visit", ["visited"])}.')
+        path = os.path.join(C, 'layers/cache.py')
+        src, tree = parse(path)
+        cl = find_class(tree, 'CacheLayer')
+        fn = find_func(cl.body, '_detect_impure')
+        note('CacheLayer._detect_impure', 'layers/cache.py', fn, src)
+        out.append(f'Definition trav_detect_impure : trav_shape := {traversal_shape(path, fn, None, ["visited"])}.')
+        n = norm(fn.body)
+        want = ("ifvisitedisNone:\nvisited=set()\nifnode.is_leafornodeinvisited:\nreturn\nvisited.add(node)\n"
+                "ifisinstance(node.edge,ImpureEdge):\nraiseValueError(f'Youaretryingtocachethefield\"{name}\",whichhasan`impure`dependency-\"{node.name}\"')\n"
+                "forparentinnode.parents:\nCacheToStorage._detect_impure(parent,name,visited)")
+        if n != want:
+            fail(path, fn, '_detect_impure changed (expected: stop at leaves and visited nodes, raise on ImpureEdge, visit every parent)')
+        out.append('Definition detect_impure_rule : string := "raise on ImpureEdge; visit every parent".')
+        path = os.path.join(C, 'engine/base.py')
+        src, tree = parse(path)
+        tn = find_class(tree, 'TreeNode')
+        fn = find_func(tn.body, 'to_edges')
+        note('TreeNode.to_edges', 'engine/base.py', fn, src)
+        out.append(f'Definition trav_to_edges : trav_shape := {traversal_shape(path, fn, "visit", ["visited"])}.\n')
 
     # --- MemoryCache
-    path = os.path.join(C, 'cache/memory.py')
-    src, tree = parse(path)
-    mc = find_class(tree, 'MemoryCache')
+    if only == 'MemGen':
+        path = os.path.join(C, 'cache/memory.py')
+        src, tree = parse(path)
+        mc = find_class(tree, 'MemoryCache')
 
-    def locked(fname):
-        fn = find_func(mc.body, fname)
-        note(f'MemoryCache.{fname}', 'cache/memory.py', fn, src)
-        ok = True
-        # every use of self._cache must be lexically inside `with self._lock`
-        inside = set()
-        for s in ast.walk(fn):
-            if isinstance(s, ast.With) and any(ast.unparse(i.context_expr) == 'self._lock' for i in s.items):
-                for x in ast.walk(s):
-                    inside.add(id(x))
-        for s in ast.walk(fn):
-            if isinstance(s, ast.Attribute) and ast.unparse(s) == 'self._cache' and id(s) not in inside:
-                ok = False
-        return fn, ok
+        def locked(fname):
+            fn = find_func(mc.body, fname)
+            note(f'MemoryCache.{fname}', 'cache/memory.py', fn, src)
+            ok = True
+            # every use of self._cache must be lexically inside `with self._lock`
+            inside = set()
+            for s in ast.walk(fn):
+                if isinstance(s, ast.With) and any(ast.unparse(i.context_expr) == 'self._lock' for i in s.items):
+                    for x in ast.walk(s):
+                        inside.add(id(x))
+            for s in ast.walk(fn):
+                if isinstance(s, ast.Attribute) and ast.unparse(s) == 'self._cache' and id(s) not in inside:
+                    ok = False
+            return fn, ok
 
-    fn, l_get = locked('get')
-    want_get = 'key=key.value\nwithself._lock:\nifkeyinself._cache:\nreturn(self._cache[key],True)\nreturn(None,False)'
-    if norm(fn.body) != want_get:
-        fail(path, fn, 'MemoryCache.get changed')
-    fn, l_set = locked('set')
-    if norm(fn.body) != 'key=key.value\nwithself._lock:\nself._cache[key]=value':
-        fail(path, fn, 'MemoryCache.set changed')
-    fn, l_clear = locked('clear')
-    n = norm(fn.body)
-    if n == 'withself._lock:\nself._cache={}':
-        clear = 'ResetToDict'
-    elif n == 'withself._lock:\nifself.sizeisnotNone:\nself._cache=lrucache(self.size)\nelse:\nself._cache={}':
-        clear = 'ResetSameKind'
-    else:
-        fail(path, fn, 'MemoryCache.clear changed')
-    init = find_func(mc.body, '__init__')
-    note('MemoryCache.__init__', 'cache/memory.py', init, src)
-    n = norm(init.body)
-    if 'ifsizeisnotNone:\nself._cache=lrucache(size)\nelse:\nself._cache={}' not in n or 'self._lock=Lock()' not in n:
-        fail(path, init, 'MemoryCache.__init__ changed')
-    red = find_func(mc.body, '__reduce__')
-    note('MemoryCache.__reduce__', 'cache/memory.py', red, src)
-    if norm(red.body) != 'return(self.__class__,(self.size,))':
-        fail(path, red, 'MemoryCache.__reduce__ changed')
-    out.append('Inductive clear_kind := ResetSameKind | ResetToDict.')
-    out.append(f'Definition mc_clear : clear_kind := {clear}.')
-    out.append(f'Definition mc_locked_get : bool := {str(l_get).lower()}.')
-    out.append(f'Definition mc_locked_set : bool := {str(l_set).lower()}.')
-    out.append(f'Definition mc_locked_clear : bool := {str(l_clear).lower()}.')
-    out.append('Definition mc_key_is : string := "key.value".')
-    out.append('Definition mc_reduce_keeps : list string := ["size"].\n')
+        fn, l_get = locked('get')
+        want_get = 'key=key.value\nwithself._lock:\nifkeyinself._cache:\nreturn(self._cache[key],True)\nreturn(None,False)'
+        if norm(fn.body) != want_get:
+            fail(path, fn, 'MemoryCache.get changed')
+        fn, l_set = locked('set')
+        if norm(fn.body) != 'key=key.value\nwithself._lock:\nself._cache[key]=value':
+            fail(path, fn, 'MemoryCache.set changed')
+        fn, l_clear = locked('clear')
+        n = norm(fn.body)
+        if n == 'withself._lock:\nself._cache={}':
+            clear = 'ResetToDict'
+        elif n == 'withself._lock:\nifself.sizeisnotNone:\nself._cache=lrucache(self.size)\nelse:\nself._cache={}':
+            clear = 'ResetSameKind'
+        else:
+            fail(path, fn, 'MemoryCache.clear changed')
+        init = find_func(mc.body, '__init__')
+        note('MemoryCache.__init__', 'cache/memory.py', init, src)
+        n = norm(init.body)
+        if 'ifsizeisnotNone:\nself._cache=lrucache(size)\nelse:\nself._cache={}' not in n or 'self._lock=Lock()' not in n:
+            fail(path, init, 'MemoryCache.__init__ changed')
+        red = find_func(mc.body, '__reduce__')
+        note('MemoryCache.__reduce__', 'cache/memory.py', red, src)
+        if norm(red.body) != 'return(self.__class__,(self.size,))':
+            fail(path, red, 'MemoryCache.__reduce__ changed')
+        out.append('Inductive clear_kind := ResetSameKind | ResetToDict.')
+        out.append(f'Definition mc_clear : clear_kind := {clear}.')
+        out.append(f'Definition mc_locked_get : bool := {str(l_get).lower()}.')
+        out.append(f'Definition mc_locked_set : bool := {str(l_set).lower()}.')
+        out.append(f'Definition mc_locked_clear : bool := {str(l_clear).lower()}.')
+        out.append('Definition mc_key_is : string := "key.value".')
+        out.append('Definition mc_reduce_keeps : list string := ["size"].\n')
 
     # --- CachedColumn._get_shard
-    path = os.path.join(C, 'layers/columns.py')
-    src, tree = parse(path)
-    cc = find_class(tree, 'CachedColumn')
-    fn = find_func(cc.body, '_get_shard')
-    note('CachedColumn._get_shard', 'layers/columns.py', fn, src)
-    want = ("keys=sorted(keys)\nifkeynotinkeys:\nraiseValueError(f'Thekey\"{key}\"isnotpresentamongthe{len(keys)}keyscachedbythislayer')\n"
-            "size=self.shard_size\nifsizeisNone:\nreturn(keys,1,0)\nifisinstance(size,float):\nsize=ceil(size*len(keys))\n"
-            "assertsize>0\nidx=keys.index(key)//size\ncount=ceil(len(keys)/size)\nstart=idx*size\nkeys=keys[start:start+size]\n"
-            "assertkeyinkeys\nreturn(keys,count,idx)")
-    if norm(fn.body) != want:
-        fail(path, fn, '_get_shard changed')
-    out.append(textwrap.dedent('''\
-        (* layers/columns.py CachedColumn._get_shard, for an integer size (a float fraction is converted by
-           size = ceil(frac * len(keys)) first); keys already sorted; pos = keys.index(key) *)
-        Definition shard_idx (pos size : nat) : nat := pos / size.
-        Definition shard_count (len size : nat) : nat := (len + size - 1) / size.
-        Definition shard_keys {A} (keys : list A) (size idx : nat) : list A := firstn size (skipn (idx * size) keys).
-        '''))
+    if only == 'ShardGen':
+        path = os.path.join(C, 'layers/columns.py')
+        src, tree = parse(path)
+        cc = find_class(tree, 'CachedColumn')
+        fn = find_func(cc.body, '_get_shard')
+        note('CachedColumn._get_shard', 'layers/columns.py', fn, src)
+        want = ("keys=sorted(keys)\nifkeynotinkeys:\nraiseValueError(f'Thekey\"{key}\"isnotpresentamongthe{len(keys)}keyscachedbythislayer')\n"
+                "size=self.shard_size\nifsizeisNone:\nreturn(keys,1,0)\nifisinstance(size,float):\nsize=ceil(size*len(keys))\n"
+                "assertsize>0\nidx=keys.index(key)//size\ncount=ceil(len(keys)/size)\nstart=idx*size\nkeys=keys[start:start+size]\n"
+                "assertkeyinkeys\nreturn(keys,count,idx)")
+        if norm(fn.body) != want:
+            fail(path, fn, '_get_shard changed')
+        out.append(textwrap.dedent('''\
+            (* layers/columns.py CachedColumn._get_shard, for an integer size (a float fraction is converted by
+               size = ceil(frac * len(keys)) first); keys already sorted; pos = keys.index(key) *)
+            Definition shard_idx (pos size : nat) : nat := pos / size.
+            Definition shard_count (len size : nat) : nat := (len + size - 1) / size.
+            Definition shard_keys {A} (keys : list A) (size idx : nat) : list A := firstn size (skipn (idx * size) keys).
+            '''))
 
     # --- join.py ids_maker / id_maker
-    path = os.path.join(C, 'layers/join.py')
-    src, tree = parse(path)
-    fn = find_func(tree.body, 'ids_maker')
-    note('ids_maker', 'layers/join.py', fn, src)
-    want = ('defids(mappings):\ninner,left,right=mappings\nresult=set(inner)\nifhowin[JoinMode.left,JoinMode.outer]:\n'
-            'result|=set(left)\nifhowin[JoinMode.right,JoinMode.outer]:\nresult|=set(right)\nreturntuple(sorted(result))\nreturnids')
-    if norm(fn.body) != want:
-        fail(path, fn, 'ids_maker changed')
-    fn = find_func(tree.body, 'id_maker')
-    note('id_maker', 'layers/join.py', fn, src)
-    want = ("one_sided=howin([JoinMode.left,JoinMode.outer]ifindex==0else[JoinMode.right,JoinMode.outer])\n\n"
-            "defkey(i,mappings):\ninner,*rest=mappings\nifiininner:\nreturninner[i][index]\nifone_sidedandiinrest[index]:\n"
-            "returnrest[index][i]\nraiseKeyError(f'Key\"{i}\"notfound')\nreturnkey")
-    if norm(fn.body) != want:
-        fail(path, fn, 'id_maker changed')
-    out.append(textwrap.dedent('''\
-        (* layers/join.py ids_maker(how): which of the three key sets (inner, left-only, right-only) are united *)
-        Inductive join_mode := JInner | JLeft | JRight | JOuter.
-        Definition ids_uses_left (how : join_mode) : bool := match how with JLeft | JOuter => true | _ => false end.
-        Definition ids_uses_right (how : join_mode) : bool := match how with JRight | JOuter => true | _ => false end.
-        Definition id_maker_order : string := "inner first, then the own one-sided table if the mode selects this side, else KeyError".
-        (* id_maker(index, how): a one-sided entry is served only in the modes that keep this side *)
-        Definition id_serves_one_sided (left_side : bool) (how : join_mode) : bool :=
-          if left_side then ids_uses_left how else ids_uses_right how.
-        '''))
+    if only == 'JoinGen':
+        path = os.path.join(C, 'layers/join.py')
+        src, tree = parse(path)
+        fn = find_func(tree.body, 'ids_maker')
+        note('ids_maker', 'layers/join.py', fn, src)
+        want = ('defids(mappings):\ninner,left,right=mappings\nresult=set(inner)\nifhowin[JoinMode.left,JoinMode.outer]:\n'
+                'result|=set(left)\nifhowin[JoinMode.right,JoinMode.outer]:\nresult|=set(right)\nreturntuple(sorted(result))\nreturnids')
+        if norm(fn.body) != want:
+            fail(path, fn, 'ids_maker changed')
+        fn = find_func(tree.body, 'id_maker')
+        note('id_maker', 'layers/join.py', fn, src)
+        want = ("one_sided=howin([JoinMode.left,JoinMode.outer]ifindex==0else[JoinMode.right,JoinMode.outer])\n\n"
+                "defkey(i,mappings):\ninner,*rest=mappings\nifiininner:\nreturninner[i][index]\nifone_sidedandiinrest[index]:\n"
+                "returnrest[index][i]\nraiseKeyError(f'Key\"{i}\"notfound')\nreturnkey")
+        if norm(fn.body) != want:
+            fail(path, fn, 'id_maker changed')
+        out.append(textwrap.dedent('''\
+            (* layers/join.py ids_maker(how): which of the three key sets (inner, left-only, right-only) are united *)
+            Inductive join_mode := JInner | JLeft | JRight | JOuter.
+            Definition ids_uses_left (how : join_mode) : bool := match how with JLeft | JOuter => true | _ => false end.
+            Definition ids_uses_right (how : join_mode) : bool := match how with JRight | JOuter => true | _ => false end.
+            Definition id_maker_order : string := "inner first, then the own one-sided table if the mode selects this side, else KeyError".
+            (* id_maker(index, how): a one-sided entry is served only in the modes that keep this side *)
+            Definition id_serves_one_sided (left_side : bool) (how : join_mode) : bool :=
+              if left_side then ids_uses_left how else ids_uses_right how.
+            '''))
 
     # --- interface/edges.py Inverse._wrap: EVERY default-named argument of an @inverse function becomes a backward input (C10)
-    path = os.path.join(C, 'interface/edges.py')
-    src, tree = parse(path)
-    inv = find_class(tree, 'Inverse')
-    fn = find_func(inv.body, '_wrap')
-    note('Inverse._wrap', 'interface/edges.py', fn, src)
-    want = ("ifisinstance(output,Default):\noutput=InverseOutput(output.name)\nifnotisinstance(output,InverseOutput):\n"
-            "raiseFieldError(f\"Thefunctioncan'tbeinverted,becauseitsoutputisalreadyoftype{type(output)}\")\n"
-            "inputs=[replace_annotation(lambdaa:InverseInput(a.name)ifisinstance(a,Default)elsea,x)forxininputs]\n"
-            "yieldTypedEdge(edge,inputs,output)")
-    if norm(fn.body) != want:
-        fail(path, fn, 'Inverse._wrap changed')
-    out.append('Definition inverse_wrap_rule : string := "default output -> InverseOutput; every default input -> InverseInput".\n')
-    # containers/context.py: ChainContext.reverse runs the current context first, then the previous one
-    path = os.path.join(C, 'containers/context.py')
-    src, tree = parse(path)
-    cc = find_class(tree, 'ChainContext')
-    fn = find_func(cc.body, 'reverse')
-    note('ChainContext.reverse', 'containers/context.py', fn, src)
-    want = ("outputs,current_edges,current_optionals=self.current.reverse(outputs)\noutputs,previous_edges,previous_optionals=self.previous.reverse(outputs)\n"
-            "return(outputs,list(current_edges)+list(previous_edges),current_optionals|previous_optionals)")
-    if norm(fn.body) != want:
-        fail(path, fn, 'ChainContext.reverse changed')
-    out.append('Definition chain_reverse_order : string := "current first, then previous".\n')
+    if only == 'LoopGen':
+        path = os.path.join(C, 'interface/edges.py')
+        src, tree = parse(path)
+        inv = find_class(tree, 'Inverse')
+        fn = find_func(inv.body, '_wrap')
+        note('Inverse._wrap', 'interface/edges.py', fn, src)
+        want = ("ifisinstance(output,Default):\noutput=InverseOutput(output.name)\nifnotisinstance(output,InverseOutput):\n"
+                "raiseFieldError(f\"Thefunctioncan'tbeinverted,becauseitsoutputisalreadyoftype{type(output)}\")\n"
+                "inputs=[replace_annotation(lambdaa:InverseInput(a.name)ifisinstance(a,Default)elsea,x)forxininputs]\n"
+                "yieldTypedEdge(edge,inputs,output)")
+        if norm(fn.body) != want:
+            fail(path, fn, 'Inverse._wrap changed')
+        out.append('Definition inverse_wrap_rule : string := "default output -> InverseOutput; every default input -> InverseInput".\n')
+        # containers/context.py: ChainContext.reverse runs the current context first, then the previous one
+        path = os.path.join(C, 'containers/context.py')
+        src, tree = parse(path)
+        cc = find_class(tree, 'ChainContext')
+        fn = find_func(cc.body, 'reverse')
+        note('ChainContext.reverse', 'containers/context.py', fn, src)
+        want = ("outputs,current_edges,current_optionals=self.current.reverse(outputs)\noutputs,previous_edges,previous_optionals=self.previous.reverse(outputs)\n"
+                "return(outputs,list(current_edges)+list(previous_edges),current_optionals|previous_optionals)")
+        if norm(fn.body) != want:
+            fail(path, fn, 'ChainContext.reverse changed')
+        out.append('Definition chain_reverse_order : string := "current first, then previous".\n')
 
     # --- cache/disk.py DiskCache and the store CacheToDisk.simple builds (C12)
-    path = os.path.join(C, 'cache/disk.py')
-    src, tree = parse(path)
-    dc = find_class(tree, 'DiskCache')
-    wants = {'prepare': "raw=param.value\ncontext=self.cache.prepare(raw)\nreturn(context.digest,context)",
-             'get': "returnself.cache.read(context,error=False)",
-             'set': "self.cache.write(context,value,error=False,labels=self.labels)"}
-    for name, want in wants.items():
-        fn = find_func(dc.body, name)
-        note('DiskCache.' + name, 'cache/disk.py', fn, src)
-        if norm(fn.body) != want:
-            fail(path, fn, f'DiskCache.{name} changed')
-    out.append('(* cache/disk.py: a miss and an unwritable store are values, not exceptions; the entry key is the digest tarn makes of the node hash *)\n'
-               'Definition disk_get_raises_on_miss : bool := false.\nDefinition disk_set_raises : bool := false.\n')
-    path = os.path.join(C, 'layers/cache.py')
-    src, tree = parse(path)
-    ctd = find_class(tree, 'CacheToDisk')
-    fn = find_func(ctd.body, '__init__')
-    note('CacheToDisk.__init__', 'layers/cache.py', fn, src)
-    body = norm(fn.body)
-    if "self.storage=DiskCache(PickleKeyStorage(index,storage,serializer,algorithm=storage.algorithm),labels=labels)" not in body:
-        fail(path, fn, 'CacheToDisk.__init__ builds another store')
-    fn = find_func(ctd.body, 'simple')
-    note('CacheToDisk.simple', 'layers/cache.py', fn, src)
-    body = norm(fn.body)
-    for piece in ("init_storage(StorageConfig(hash='sha256',levels=[1,31]),index)\ninit_storage(StorageConfig(hash='sha256',levels=[1,31]),storage)",
-                  "returncls(index,HashKeyStorage(DiskDict(storage)),serializer,names,labels=labels)"):
-        if piece not in body:
-            fail(path, fn, 'CacheToDisk.simple builds another store')
-    out.append('(* layers/cache.py CacheToDisk.simple: two plain DiskDicts (no labels / usage / size trackers), blobs behind a HashKeyStorage that raises on a missing blob *)\n'
-               'Definition simple_store : string := "index: DiskDict sha256 [1,31]; storage: HashKeyStorage(DiskDict sha256 [1,31]), error=True".\n')
+    if only == 'DiskGen':
+        path = os.path.join(C, 'cache/disk.py')
+        src, tree = parse(path)
+        dc = find_class(tree, 'DiskCache')
+        wants = {'prepare': "raw=param.value\ncontext=self.cache.prepare(raw)\nreturn(context.digest,context)",
+                 'get': "returnself.cache.read(context,error=False)",
+                 'set': "self.cache.write(context,value,error=False,labels=self.labels)"}
+        for name, want in wants.items():
+            fn = find_func(dc.body, name)
+            note('DiskCache.' + name, 'cache/disk.py', fn, src)
+            if norm(fn.body) != want:
+                fail(path, fn, f'DiskCache.{name} changed')
+        out.append('(* cache/disk.py: a miss and an unwritable store are values, not exceptions; the entry key is the digest tarn makes of the node hash *)\n'
+                   'Definition disk_get_raises_on_miss : bool := false.\nDefinition disk_set_raises : bool := false.\n')
+        path = os.path.join(C, 'layers/cache.py')
+        src, tree = parse(path)
+        ctd = find_class(tree, 'CacheToDisk')
+        fn = find_func(ctd.body, '__init__')
+        note('CacheToDisk.__init__', 'layers/cache.py', fn, src)
+        body = norm(fn.body)
+        if "self.storage=DiskCache(PickleKeyStorage(index,storage,serializer,algorithm=storage.algorithm),labels=labels)" not in body:
+            fail(path, fn, 'CacheToDisk.__init__ builds another store')
+        fn = find_func(ctd.body, 'simple')
+        note('CacheToDisk.simple', 'layers/cache.py', fn, src)
+        body = norm(fn.body)
+        for piece in ("init_storage(StorageConfig(hash='sha256',levels=[1,31]),index)\ninit_storage(StorageConfig(hash='sha256',levels=[1,31]),storage)",
+                      "returncls(index,HashKeyStorage(DiskDict(storage)),serializer,names,labels=labels)"):
+            if piece not in body:
+                fail(path, fn, 'CacheToDisk.simple builds another store')
+        out.append('(* layers/cache.py CacheToDisk.simple: two plain DiskDicts (no labels / usage / size trackers), blobs behind a HashKeyStorage that raises on a missing blob *)\n'
+                   'Definition simple_store : string := "index: DiskDict sha256 [1,31]; storage: HashKeyStorage(DiskDict sha256 [1,31]), error=True".\n')
 
     # --- pickling hooks (C19): everything but MemoryCache is pickled by default (a structural copy)
-    hooks = []
-    for dirpath, _, files in os.walk(C):
-        for fn_ in sorted(files):
-            if not fn_.endswith('.py'):
-                continue
-            p_ = os.path.join(dirpath, fn_)
-            src_, tree_ = parse(p_)
-            for cls in ast.walk(tree_):
-                if isinstance(cls, ast.ClassDef):
-                    for m in cls.body:
-                        if isinstance(m, ast.FunctionDef) and m.name in ('__reduce__', '__reduce_ex__', '__getstate__', '__setstate__',
-                                                                          '__getnewargs__', '__getnewargs_ex__', '__copy__', '__deepcopy__'):
-                            hooks.append(f'{os.path.relpath(p_, C)}:{cls.name}.{m.name}')
-    hooks.sort()
-    if hooks != ['cache/memory.py:MemoryCache.__reduce__']:
-        fail(os.path.join(C, 'engine/graph.py'), tree, f'custom pickling hooks changed: {hooks}')
-    out.append('(* the only class with a pickling hook of its own; Graph, TreeNode, the edges and the other caches are copied structurally *)\n'
-               'Definition pickling_hooks : list string := ["cache/memory.py:MemoryCache.__reduce__"].\n')
+    if only == 'PickleGen':
+        hooks = []
+        for dirpath, _, files in os.walk(C):
+            for fn_ in sorted(files):
+                if not fn_.endswith('.py'):
+                    continue
+                p_ = os.path.join(dirpath, fn_)
+                src_, tree_ = parse(p_)
+                for cls in ast.walk(tree_):
+                    if isinstance(cls, ast.ClassDef):
+                        for m in cls.body:
+                            if isinstance(m, ast.FunctionDef) and m.name in ('__reduce__', '__reduce_ex__', '__getstate__', '__setstate__',
+                                                                              '__getnewargs__', '__getnewargs_ex__', '__copy__', '__deepcopy__'):
+                                hooks.append(f'{os.path.relpath(p_, C)}:{cls.name}.{m.name}')
+        hooks.sort()
+        if hooks != ['cache/memory.py:MemoryCache.__reduce__']:
+            fail(os.path.join(C, 'engine/graph.py'), tree, f'custom pickling hooks changed: {hooks}')
+        out.append('(* the only class with a pickling hook of its own; Graph, TreeNode, the edges and the other caches are copied structurally *)\n'
+                   'Definition pickling_hooks : list string := ["cache/memory.py:MemoryCache.__reduce__"].\n')
 
     # --- library-owned callables stored in edges (C19): lambdas / nested defs passed to FunctionEdge(...) in connectome/layers
-    sites = []
-    for rel in ('layers/group.py', 'layers/split.py', 'layers/filter.py', 'layers/join.py', 'layers/merge.py',
-                'layers/apply.py', 'layers/cache.py', 'layers/columns.py', 'layers/check_ids.py'):
-        path = os.path.join(C, rel)
-        src, tree = parse(path)
-        toplevel = {n.name for n in tree.body if isinstance(n, (ast.FunctionDef, ast.ClassDef))}
-        imported = set()
-        for n in tree.body:
-            if isinstance(n, (ast.Import, ast.ImportFrom)):
-                for a in n.names:
-                    imported.add((a.asname or a.name).split('.')[0])
-        local_makers = {}
-        for n in tree.body:
-            if isinstance(n, ast.FunctionDef):
-                inner_defs = [x.name for x in n.body if isinstance(x, ast.FunctionDef)]
-                rets = [ast.unparse(x.value) for x in n.body if isinstance(x, ast.Return) and x.value is not None]
-                if inner_defs and rets and rets[-1] in inner_defs:
-                    local_makers[n.name] = 'Closure'
-        for n in ast.walk(tree):
-            if isinstance(n, ast.Call) and ast.unparse(n.func) == 'FunctionEdge' and n.args:
-                a = n.args[0]
-                if isinstance(a, ast.Lambda):
-                    kind = 'Lambda'
-                elif isinstance(a, ast.Name) and (a.id in toplevel or a.id in imported):
-                    kind = 'Global'
-                elif isinstance(a, ast.Call) and isinstance(a.func, ast.Name) and a.func.id in local_makers:
-                    kind = 'Closure'
-                elif isinstance(a, ast.Call) and isinstance(a.func, ast.Name) and a.func.id == 'itemgetter':
-                    kind = 'Global'
-                elif isinstance(a, (ast.Attribute, ast.Name)):
-                    kind = 'User'      # self.predicate, self.by, func, ...: supplied by the user
-                else:
-                    fail(path, n, 'callable argument of FunctionEdge')
-                sites.append((rel, n.lineno, kind, ast.unparse(a)[:40]))
-            # classmethods returning cls(lambda ...)
-            if isinstance(n, ast.Call) and ast.unparse(n.func) == 'cls' and n.args and isinstance(n.args[0], ast.Lambda):
-                sites.append((rel, n.lineno, 'Lambda', 'cls(' + ast.unparse(n.args[0])[:30] + ')'))
-    out.append('Inductive callable_kind := Global | User | Lambda | Closure.')
-    out.append('Definition lib_callables : list (string * nat * callable_kind) := [\n  ' + ';\n  '.join(
-        f'({coq_str(r)}, {ln}, {k})' for r, ln, k, _ in sites) + '].')
-    report['lib_callables'] = [{'file': r, 'line': ln, 'kind': k, 'expr': t} for r, ln, k, t in sites]
+    if only == 'PickleGen':
+        sites = []
+        for rel in ('layers/group.py', 'layers/split.py', 'layers/filter.py', 'layers/join.py', 'layers/merge.py',
+                    'layers/apply.py', 'layers/cache.py', 'layers/columns.py', 'layers/check_ids.py'):
+            path = os.path.join(C, rel)
+            src, tree = parse(path)
+            toplevel = {n.name for n in tree.body if isinstance(n, (ast.FunctionDef, ast.ClassDef))}
+            imported = set()
+            for n in tree.body:
+                if isinstance(n, (ast.Import, ast.ImportFrom)):
+                    for a in n.names:
+                        imported.add((a.asname or a.name).split('.')[0])
+            local_makers = {}
+            for n in tree.body:
+                if isinstance(n, ast.FunctionDef):
+                    inner_defs = [x.name for x in n.body if isinstance(x, ast.FunctionDef)]
+                    rets = [ast.unparse(x.value) for x in n.body if isinstance(x, ast.Return) and x.value is not None]
+                    if inner_defs and rets and rets[-1] in inner_defs:
+                        local_makers[n.name] = 'Closure'
+            for n in ast.walk(tree):
+                if isinstance(n, ast.Call) and ast.unparse(n.func) == 'FunctionEdge' and n.args:
+                    a = n.args[0]
+                    if isinstance(a, ast.Lambda):
+                        kind = 'Lambda'
+                    elif isinstance(a, ast.Name) and (a.id in toplevel or a.id in imported):
+                        kind = 'Global'
+                    elif isinstance(a, ast.Call) and isinstance(a.func, ast.Name) and a.func.id in local_makers:
+                        kind = 'Closure'
+                    elif isinstance(a, ast.Call) and isinstance(a.func, ast.Name) and a.func.id == 'itemgetter':
+                        kind = 'Global'
+                    elif isinstance(a, (ast.Attribute, ast.Name)):
+                        kind = 'User'      # self.predicate, self.by, func, ...: supplied by the user
+                    else:
+                        fail(path, n, 'callable argument of FunctionEdge')
+                    sites.append((rel, n.lineno, kind, ast.unparse(a)[:40]))
+                # classmethods returning cls(lambda ...)
+                if isinstance(n, ast.Call) and ast.unparse(n.func) == 'cls' and n.args and isinstance(n.args[0], ast.Lambda):
+                    sites.append((rel, n.lineno, 'Lambda', 'cls(' + ast.unparse(n.args[0])[:30] + ')'))
+        out.append('Inductive callable_kind := Global | User | Lambda | Closure.')
+        out.append('Definition lib_callables : list (string * nat * callable_kind) := [\n  ' + ';\n  '.join(
+            f'({coq_str(r)}, {ln}, {k})' for r, ln, k, _ in sites) + '].')
+        report['lib_callables'] = [{'file': r, 'line': ln, 'kind': k, 'expr': t} for r, ln, k, t in sites]
     return '\n'.join(out) + '\n'
 
 
@@ -1093,9 +1104,16 @@ REL_WANT = [
 ]
 
 
-def gen_relational(repo, report):
+REL_FILES = {'MergeGen': (), 'FilterGen': ('layers/filter.py', 'layers/check_ids.py'), 'JoinMapGen': ('layers/join.py',),
+             'GroupGen': ('layers/group.py',), 'SplitGen': ('layers/split.py',)}
+
+
+def gen_relational(repo, report, only):
+    """one generated file per dataset-wide layer kind (REL_FILES), so that a body that lost its shape fails the file of its own layer only"""
     cache = {}
     for rel, cls, fname, want in REL_WANT:
+        if rel not in REL_FILES[only]:
+            continue
         path = os.path.join(repo, 'connectome', rel)
         if path not in cache:
             cache[path] = parse(path)
@@ -1113,26 +1131,29 @@ def gen_relational(repo, report):
         stripped = _StripProgress().visit(ast.parse(ast.unparse(fn)).body[0])
         if norm(stripped.body) != want:
             fail(path, fn, f'{cls + "." if cls else ""}{fname} changed')
-    # Merge.__init__: the id table; Filter.keep / drop: what the predicate closes over
-    path = os.path.join(repo, 'connectome', 'layers/merge.py')
-    src, tree = parse(path)
-    init = find_func(find_class(tree, 'Merge').body, '__init__')
-    report['kernels'].append({'kernel': 'Merge.__init__', 'file': 'layers/merge.py', 'line': init.lineno, 'sha256_16': sha(src, init)})
-    ni = norm(init.body)
-    for piece in ('id_to_dataset={}\nforindex,datasetinenumerate(layers):\nkeys=getattr(dataset,ids_name)\nintersection=set(keys)&set(id_to_dataset)\n'
-                  "ifintersection:\nraiseRuntimeError(f'Ids{intersection}areduplicatedinmergeddatasets.')\nid_to_dataset.update({i:indexforiinkeys})",):
+    if only == 'MergeGen':
+        # Merge.__init__: the id table
+        path = os.path.join(repo, 'connectome', 'layers/merge.py')
+        src, tree = parse(path)
+        init = find_func(find_class(tree, 'Merge').body, '__init__')
+        report['kernels'].append({'kernel': 'Merge.__init__', 'file': 'layers/merge.py', 'line': init.lineno, 'sha256_16': sha(src, init)})
+        ni = norm(init.body)
+        piece = ('id_to_dataset={}\nforindex,datasetinenumerate(layers):\nkeys=getattr(dataset,ids_name)\nintersection=set(keys)&set(id_to_dataset)\n'
+                 "ifintersection:\nraiseRuntimeError(f'Ids{intersection}areduplicatedinmergeddatasets.')\nid_to_dataset.update({i:indexforiinkeys})")
         if piece not in ni:
             fail(path, init, 'the id table of Merge.__init__ changed')
-    path = os.path.join(repo, 'connectome', 'layers/filter.py')
-    src, tree = parse(path)
-    fl = find_class(tree, 'Filter')
-    for name, pred in (('keep', '_among'), ('drop', '_not_among')):
-        fn = find_func(fl.body, name)
-        report['kernels'].append({'kernel': f'Filter.{name}', 'file': 'layers/filter.py', 'line': fn.lineno, 'sha256_16': sha(src, fn)})
-        nb = norm(fn.body)
-        if 'ids=tuple(sorted(set(ids)))' not in nb or f'returncls(partial({pred},ids),verbose=verbose)' not in nb:
-            fail(path, fn, f'Filter.{name} changed')
-    return open(os.path.join(os.path.dirname(os.path.abspath(__file__)), 'templates', 'RelGen.v')).read()
+    if only == 'FilterGen':
+        # Filter.keep / drop: what the predicate closes over
+        path = os.path.join(repo, 'connectome', 'layers/filter.py')
+        src, tree = parse(path)
+        fl = find_class(tree, 'Filter')
+        for name, pred in (('keep', '_among'), ('drop', '_not_among')):
+            fn = find_func(fl.body, name)
+            report['kernels'].append({'kernel': f'Filter.{name}', 'file': 'layers/filter.py', 'line': fn.lineno, 'sha256_16': sha(src, fn)})
+            nb = norm(fn.body)
+            if 'ids=tuple(sorted(set(ids)))' not in nb or f'returncls(partial({pred},ids),verbose=verbose)' not in nb:
+                fail(path, fn, f'Filter.{name} changed')
+    return open(os.path.join(os.path.dirname(os.path.abspath(__file__)), 'templates', only + '.v')).read()
 
 
 def write_if_changed(path, text):
@@ -1157,7 +1178,9 @@ def main():
     report = {'kernels': [], 'failures': [], 'files': {}}
     ok = True
     for fname, fn in (('EdgesGen.v', gen_edges), ('NodeHashGen.v', gen_nodehash), ('AntiSetGen.v', gen_antiset),
-                      ('MiscGen.v', gen_misc), ('ColumnsGen.v', gen_columns), ('RelGen.v', gen_relational)):
+                      ('ColumnsGen.v', gen_columns)) + tuple(
+            (f'{m}.v', (lambda repo_, report_, m_=m: gen_relational(repo_, report_, m_))) for m in REL_FILES) + tuple(
+            (f'{m}.v', (lambda repo_, report_, m_=m: gen_misc(repo_, report_, m_))) for m in MISC_FILES):
         try:
             text = fn(repo, report)
             changed = write_if_changed(os.path.join(outdir, fname), text)
